@@ -123,6 +123,10 @@ func (c *Ctx) underReceiverLock(ws *core.WriteSite) bool {
 		return false
 	}
 	recv := fn.Params[0].Name()
+	if writesGlobal(ws.In) {
+		// a mutex of one receiver does not serialise writes to package-level memory shared by all receivers
+		return false
+	}
 	held := c.lockedAt(fn, ws.In)
 	for _, l := range held {
 		if strings.HasPrefix(l, recv+".") {
@@ -180,7 +184,7 @@ func (c *Ctx) isLazyInitSite(ws *core.WriteSite) (string, bool) {
 						p := c.M.ValPath(x)
 						if strings.HasPrefix(p, ap+".") {
 							field := p[len(ap)+1:]
-							if !strings.ContainsAny(field, ".[*") && flow.Ensures(fn, field) {
+							if !strings.ContainsAny(field, ".[*") && (flow.Ensures(fn, field) || flow.EnsuresOnNilErr(fn, field)) {
 								okSite = true
 							}
 						}
@@ -210,4 +214,34 @@ func (c *Ctx) isLazyInitSite(ws *core.WriteSite) (string, bool) {
 		return "", false
 	}
 	return "lazy cache fill: " + c.M.Key(fn) + " takes only the receiver and every call of it is dominated by a nil test of the cache field it initialises; behaviour-invisible", true
+}
+
+// writesGlobal: the written location is (inside) a package-level variable.
+func writesGlobal(in ssa.Instruction) bool {
+	var target ssa.Value
+	switch x := in.(type) {
+	case *ssa.Store:
+		target = x.Addr
+	case *ssa.MapUpdate:
+		target = x.Map
+	default:
+		return false
+	}
+	for i := 0; i < 8 && target != nil; i++ {
+		switch x := target.(type) {
+		case *ssa.Global:
+			return true
+		case *ssa.UnOp:
+			target = x.X
+		case *ssa.FieldAddr:
+			target = x.X
+		case *ssa.IndexAddr:
+			target = x.X
+		case *ssa.ChangeType:
+			target = x.X
+		default:
+			return false
+		}
+	}
+	return false
 }
